@@ -35,8 +35,9 @@ PAR = 4
 
 PKGS = ["main", "p1", "p2"]
 XVAR = {"main/x": ("vmod", "xmain"), "p1/x": ("vmod/p1", "X"), "p2/x": ("vmod/p2", "X")}
-FILE_OF = {"main/src": "msrc.go", "p1/src": "p1/src.go", "p2/src": "p2/src.go", "p1/emb": "p1/data.txt",
-           "p2/emb": "p2/data.txt", "p1/c": "p1/_c/c.c", "p2/c": "p2/_c/c.c"}
+FILE_OF = {"main/src": "msrc.go", "p1/src": "p1/src.go", "p2/src": "p2/src.go", "p1/emb": "p1/data/a.txt",
+           "p2/emb": "p2/data/a.txt", "p1/c": "p1/_c/c.c", "p2/c": "p2/_c/c.c"}
+ENV_SPELL = ["0", "TRUE", "off", "1", "false", "On"]
 TRACE_LINE = {"main": "call vmod.main", "p1": "call vmod/p1.Marks", "p2": "call vmod/p2.Marks"}
 
 # --------------------------------------------------------------------------- the generated module
@@ -76,7 +77,7 @@ func main() {
 PKG_GO = '''package %(p)s
 
 import (
-	_ "embed"
+	"embed"
 	_ "unsafe"
 %(imp)s)
 
@@ -89,14 +90,21 @@ func cval() int32
 //go:linkname copt C.%(p)s_copt
 func copt() int32
 
-//go:embed data.txt
-var emb string
+// one embed variable, two files: the value of the input is the pair (where the boundary lies matters)
+//go:embed data
+var embfs embed.FS
+
+func embMark() string {
+	a, _ := embfs.ReadFile("data/a.txt")
+	b, _ := embfs.ReadFile("data/b.txt")
+	return string(a) + "|" + string(b)
+}
 
 var X = "x0"
 
 func Marks() {
 	println("M", "%(p)s", "%(p)s/src", Src)
-	println("M", "%(p)s", "%(p)s/emb", emb)
+	println("M", "%(p)s", "%(p)s/emb", embMark())
 	println("M", "%(p)s", "%(p)s/c", cval())
 	println("M", "%(p)s", "%(p)s/x", X)
 	println("M", "%(p)s", "tags", tagv)
@@ -148,11 +156,19 @@ def file_content(inp, ver):
             return "package main\n\nconst srcMain = %d\n" % n
         return "package %s\n\nconst Src = %d\n" % (pkg, n)
     if kind == "emb":
-        return "e%d" % n
+        return emb_files(ver)[0]
     if kind == "c":
         return ("int %s_cval(void) { return %d; }\n"
                 "int %s_copt(void) {\n#ifdef __OPTIMIZE__\n\treturn 1;\n#else\n\treturn 0;\n#endif\n}\n" % (pkg, n, pkg))
     raise ValueError(inp)
+
+
+def emb_files(ver):
+    """the embedded pair at version ver: consecutive versions 2k, 2k+1 have the same concatenation and differ only in
+    where the boundary between the two files lies"""
+    s = "e%d" % (100 + ver // 2)
+    cut = 2 + ver % 2
+    return s[:cut], s[cut:]
 
 
 def gen_module(d):
@@ -194,6 +210,8 @@ def gen_module(d):
             raise C.Undecided("cannot build libval.so for the link-order marker: %s" % (r.stdout + r.stderr)[-500:])
     for inp, path in FILE_OF.items():
         files[path] = file_content(inp, 0)
+        if inp.endswith("/emb"):
+            files[os.path.join(os.path.dirname(path), "b.txt")] = emb_files(0)[1]
     C.write_module(d, files, modname="vmod")
 
 
@@ -230,7 +248,16 @@ def apply_change(moddir, kind, inp, newver):
     st = os.stat(path)
     if kind in ("edit", "keep"):
         data = file_content(inp, newver)
-        if len(data) != st.st_size:
+        if inp.endswith("/emb"):
+            # the second file of the pair (sizes move by one byte when the boundary moves: a "keep" of this input
+            # restores the time stamps only)
+            bpath = os.path.join(os.path.dirname(path), "b.txt")
+            bst = os.stat(bpath)
+            with open(bpath, "w") as f:
+                f.write(emb_files(newver)[1])
+            if kind == "keep":
+                os.utime(bpath, ns=(bst.st_atime_ns, bst.st_mtime_ns))
+        elif len(data) != st.st_size:
             raise C.Undecided("generator: content length of %s changed" % inp)
         with open(path, "w") as f:
             f.write(data)
@@ -290,8 +317,8 @@ def build_cmd(ctx, moddir, cache, tmp, out, val, driver, gocache):
             del env[k]
     if val["opt"] % 2:
         env["LLGO_VERIF_PASSES"] = C.O2STAR
-    if val["env"] % 2:
-        env["LLGO_TRACE"] = "1"
+    # the switch is spelled differently from version to version (odd = on); what counts is how llgo reads it
+    env["LLGO_TRACE"] = ENV_SPELL[val.get("envver", val["env"]) % len(ENV_SPELL)]
     x = {}
     for inp, (pkg, var) in XVAR.items():
         if val[inp] > 0:
@@ -355,7 +382,8 @@ def decode(inp, raw):
         if kind in ("src", "c"):
             return int(raw) - 100
         if kind == "emb":
-            return int(raw[1:]) - 100 if raw.startswith("e") else None
+            a, b = raw.split("|")
+            return 2 * (int((a + b)[1:]) - 100) + (len(a) - 2) if raw.startswith("e") and len(a) in (2, 3) else None
         if kind == "x":
             return int(raw[1:]) if raw.startswith("x") else None
         return int(raw)
@@ -692,7 +720,7 @@ def replay_history(ctx, idx, h, obs, seeds, clean_every):
                     out["neg_tried"] += 1
                     if compare(ctx.reads, observe(ctx, exe), val):
                         out["neg_flagged"] += 1
-                shown = do_build(ctx, mod, cache, tmp, exe, val, driver)
+                shown = do_build(ctx, mod, cache, tmp, exe, dict(val, envver=ver["env"]), driver)
                 marks = observe(ctx, exe)
                 bad = compare(ctx.reads, marks, val)
                 out["evals"] += sum(len(ctx.reads[p]) for p in PKGS)
